@@ -98,6 +98,8 @@ type GenesisOptions struct {
 	NodeExpiration     uint64 // expiration epoch of genesis nodes (default 4)
 	NodeExpirations    []uint64 // per-node override of the expiration epoch
 	ZeroThresholds     bool     // all stake thresholds zero (tiny stakes can be elected)
+	MinGasPrice        uint64   // consensus parameter
+	TxByteGas          uint64   // gas cost per transaction byte
 
 }
 
@@ -225,7 +227,8 @@ func Genesis(k *Keys, o GenesisOptions) (*genesis.Document, error) {
 				MaxBlockSize:      1024 * 1024,
 				MaxBlockGas:       transaction.Gas(o.MaxBlockGas),
 				MaxEvidenceSize:   64 * 1024,
-				GasCosts:          transaction.Costs{consensus.GasOpTxByte: 0},
+				GasCosts:          transaction.Costs{consensus.GasOpTxByte: transaction.Gas(o.TxByteGas)},
+				MinGasPrice:       o.MinGasPrice,
 			},
 		},
 		Vault: &vault.Genesis{Parameters: vault.DefaultConsensusParameters},
